@@ -136,6 +136,12 @@ def structural_outcome(text, argv, labels, deck_has_fill):
 
 
 def check(case):
+    if case.get('corpus'):
+        for name, text, flags, enc in shipped_decks():
+            if name == case['deck_file']:
+                return structural_outcome(text, case['argv'],
+                                          ['corpus:' + name], True)
+        return skip('corpus-deck-missing')
     deck = case['deck']
     text = mr.render(deck, expr_style=case.get('style'))
     argv = mr.argv_of(deck, case['argv'])
@@ -181,5 +187,17 @@ def extra(tier, seed, stats):
                                                'argv': flags + extra_args,
                                                'corpus': True}, out.detail))
     stats.counts['corpus_conversions'] += n
-    stats.counts['extra_evaluations'] += n
+    # every axisymmetric surface kind under the 24 axis-permuting rotations
+    from . import c04
+    m = 0
+    for case in c04.axis_rotation_cases():
+        text = mr.render(case['deck'])
+        out = structural_outcome(text, [], case['labels'], False)
+        m += 1
+        if out.kind == 'violation':
+            found.setdefault(out.bucket, ({'deck': case['deck'],
+                                           'labels': case['labels'],
+                                           'argv': []}, out.detail))
+    stats.counts['axis_enumeration_cases'] = m
+    stats.counts['extra_evaluations'] += n + m
     return found
